@@ -39,3 +39,6 @@ pub(crate) mod verif_access {
 /// Verification hook (journal component).
 #[cfg(it4innovations_hyperqueue_verif)]
 pub(crate) use state::verif_first_queue_id;
+/// Verification hook (autoalloc component).
+#[cfg(it4innovations_hyperqueue_verif)]
+pub(crate) use service::verif_alloc_service;
